@@ -12,6 +12,10 @@ try:
     hooks = [l.split()[0] for l in out.splitlines() if " verif hook" in l or l.split(" ", 1)[1].startswith("verif:")]
 except Exception:
     pass
+ready = set(open(os.path.join(ROOT, "ready.txt")).read().split())
+for pid in list(props):
+    if pid not in ready:
+        props[pid]["disabled"] = True
 checks = []
 for pid in allids:
     if pid not in props or props[pid].get("disabled"):
